@@ -1,5 +1,8 @@
 import SpdxVerif.Props.C15
+import SpdxVerif.Props.Consts
 #print axioms Spdx.C15.scan_error_located
 #print axioms Spdx.C15.unknown_license_located
 #print axioms Spdx.C15.expected_id_located
 #print axioms Spdx.C15.parse_error_located
+#print axioms Spdx.ConstsPin.normalizeLicense_ints
+#print axioms Spdx.ConstsPin.readID_literals
